@@ -433,6 +433,13 @@ class List(list, base.Symbolic, pg_typing.CustomTyping):
         self._value_spec.element if self._value_spec else None,
         old_value, new_value)
 
+  def _detach(self, old_value: Any) -> None:
+    """Detaches a removed value from the object tree."""
+    if (isinstance(old_value, base.TopologyAware)
+        and old_value.sym_parent is self):
+      old_value.sym_setparent(None)
+      old_value.sym_setpath(utils.KeyPath())
+
   def _formalized_value(self, idx: int, value: Any):
     """Get transformed (formal) value from user input."""
     allow_partial = base.accepts_partial(self)
@@ -597,6 +604,8 @@ class List(list, base.Symbolic, pg_typing.CustomTyping):
 
     old_value = self.sym_getattr(index)
     super().__delitem__(index)
+    # Detach the removed value from object tree.
+    self._detach(old_value)
 
     if flags.is_change_notification_enabled():
       self._notify_field_updates([
@@ -733,7 +742,10 @@ class List(list, base.Symbolic, pg_typing.CustomTyping):
     if self._value_spec and self._value_spec.min_size > 0:
       raise ValueError(
           f'List cannot be cleared: min size is {self._value_spec.min_size}.')
+    old_values = list(self.sym_values())
     super().clear()
+    for old_value in old_values:
+      self._detach(old_value)
 
   def sort(self, *, key=None, reverse=False) -> None:
     """Sorts the items of the list in place.."""
